@@ -22,7 +22,9 @@ CONFIG = {'assumptions': [
     'section headers reach the model decoded (header decoding is C01); sh_type names via the regenerated Enum table of '
     'the default machine (harness uses machines without a private sh_type table)',
     'names compared as UTF-8 bytes; generated names are valid UTF-8 without NUL',
-    'iter_versions observed with each auxiliary iterator consumed before the next entry is requested',
+    'iter_versions observed twice: each auxiliary iterator consumed before the next entry is requested (what the model '
+    'transliterates), and, on in-domain inputs, all pairs collected first and the iterators consumed afterwards in '
+    'reverse order (must give the same entries and chains)',
     'an entry "carries" an index when its vd_ndx / vna_other field EQUALS it (hidden bit included, no masking)']}
 LEVEL = {'text': 'Machine-checked theorems, for ALL images and header tables satisfying a boolean layout predicate '
                  '(record i sits at the offset reached by following the next/aux displacements; anything else in the '
@@ -527,7 +529,17 @@ def _impl_chain(kind, img, n, idxs):
         return sec
     sec = impl_call(open_sec)
     if isinstance(sec, list):
-        return [sec, sec, [sec for _ in idxs]] + ([sec] if kind == 'verneed' else [])
+        return [sec, sec, [sec for _ in idxs]] + ([sec] if kind == 'verneed' else []), sec
+
+    def walk_deferred():
+        # all (entry, auxiliary iterator) pairs are collected FIRST, the iterators are consumed afterwards
+        # (last entry first): every iterator must still walk its own entry's chain
+        pairs = list(sec.iter_versions())
+        auxs = {}
+        for k in reversed(range(len(pairs))):
+            auxs[k] = [[_rec(a.entry), _nm(a.name)] for a in pairs[k][1]]
+        return ['ok', [[_rec(v.entry), _nm(v.name) if v.name is None else ['some', _nm(v.name)], auxs[k]]
+                       for k, (v, _) in enumerate(pairs)]]
 
     def walk():
         out = []
@@ -551,7 +563,7 @@ def _impl_chain(kind, img, n, idxs):
         r1 = impl_call(lambda: ['ok', int(sec2.has_indexes())])
         r2 = impl_call(lambda: ['ok', int(sec2.has_indexes())])
         res.append(['ok', [r1, r2]])
-    return res
+    return res, impl_call(walk_deferred)
 
 
 def _impl_versym(img, n):
@@ -708,7 +720,10 @@ def _evaluate_files(ctx, cases):
             names = ['iter_versions', 'num_versions', 'get_version'] + (['has_indexes'] if base == 'verneed' else [])
             model = [ans[1], ans[3], ans[5]] + ([ans[7]] if base == 'verneed' else [])
             spec = [ans[2], ans[4], ans[6]] + ([ans[8]] if base == 'verneed' else [])
-            impl = _impl_chain(base, data, n, idxs)
+            impl, deferred = _impl_chain(base, data, n, idxs)
+            if wf:
+                names, impl = names + ['iter_versions_deferred'], impl + [deferred]
+                model, spec = model + [model[0]], spec + [spec[0]]
         ctx.bump('corpus_file_sections', kind + (':certified' if wf else ':not-certified'))
         comp = _first_diff(names, sx.canon(impl), sx.canon(spec if wf else model))
         ctx.record(kind, a, impl=impl, spec=spec if wf else model, model=model, in_domain=wf,
@@ -826,7 +841,7 @@ def _evaluate(ctx, cases):
             names = ['iter_versions', 'num_versions', 'get_version'] + (['has_indexes'] if base == 'verneed' else [])
             model = [ans[1], ans[3], ans[5]] + ([ans[7]] if base == 'verneed' else [])
             spec = [ans[2], ans[4], ans[6]] + ([ans[8]] if base == 'verneed' else [])
-            impl = _impl_chain(base, img, n, idxs)
+            impl, deferred = _impl_chain(base, img, n, idxs)
             nrec = sum(1 + len(e[-1]) for e in c[3])
             ctx.bump(base + '_entries', len(c[3]) if len(c[3]) < 7 else '7+')
             ctx.bump(base + '_placement', c[9] if len(c) > 9 else '?')
@@ -848,6 +863,10 @@ def _evaluate(ctx, cases):
             # (its value is the same view list, ans[2]); every other observation is compared with the model
             in_domain = fits and ans[7 if base == 'verdef' else 9] == 1
             spec = [spec[0]] + model[1:]
+        if in_domain and base in ('verdef', 'verneed'):
+            # in-domain only (on malformed chains the two consumption orders legitimately meet different errors first)
+            names, impl = names + ['iter_versions_deferred'], impl + [deferred]
+            model, spec = model + [model[0]], spec + [spec[0]]
         ctx.bump('class/order', ('64' if c[1] else '32') + ('LE' if c[0] else 'BE'))
         ctx.bump('in_domain', kind + ':' + str(in_domain))
         if not malformed and not in_domain:
